@@ -52,7 +52,7 @@ ELAB_STEP_LIMIT = 2_000_000
 
 
 def n_cases(tier):
-    return 360 if tier == "quick" else 6000
+    return 960 if tier == "quick" else 12000
 
 
 def gen_case(rng, tier, idx):
